@@ -56,9 +56,10 @@ def resultStr : Result → String
   | .exit a => s!"exit:{a.toNat}"
   | .stuck => "stuck"
 
-/-- first event of the partition on which `prog` and the specification disagree -/
-def check (A : ArchInfo) (e : Endian) (p : Policy) (prog : List Instr) : String := Id.run do
-  let consts := progConsts prog
+/-- the event partition derived from a policy and from the constants of a program:
+    architecture words, syscall numbers, base argument vectors, candidate argument values -/
+def partition (A : ArchInfo) (p : Policy) (consts : List Nat) (plen : Nat) :
+    List Nat × List Nat × List (List Nat) × List Nat :=
   let allNums := policyNumbers A p
   -- large name lists: first, last and evenly spaced numbers are enough for the partition
   let nums := if allNums.length ≤ 30 then allNums else
@@ -67,7 +68,7 @@ def check (A : ArchInfo) (e : Endian) (p : Policy) (prog : List Instr) : String 
   let conds := policyConds p
   let halves := conds.foldl (fun acc c => (c.val.toNat % two32) :: (c.val.toNat / two32) :: acc) []
   let nrs := dedupNat ((nums.foldl (fun acc n => around n two32 ++ acc) []) ++
-      [0, 1, two32 - 1, 0x3fffffff, 0x40000000, 0x40000001, 0x7fffffff, 0x80000000] ++
+      [0, 1, two32 - 1, 0x3fffffff, 0x40000000, 0x40000001, 0x7fffffff, 0x80000000, 0xbfffffff, 0xc0000000] ++
       (nums.take 4).map (fun n => (n ||| 0x40000000) % two32) ++ (halves.take 8) ++ (consts.take 8))
   let arches := dedupNat [A.id.toNat, 0xC000003E, 0x40000003, 0, two32 - 1, (A.id.toNat + 1) % two32]
   -- candidate values for an argument
@@ -77,19 +78,27 @@ def check (A : ArchInfo) (e : Endian) (p : Policy) (prog : List Instr) : String 
         two64 - 1 - v, satisfying c] ++ acc) []) ++
       [0, 1, two32 - 1, two32, two32 + 1, two64 - 1] ++ (nums.take 12) ++ ((allNums.reverse).take 6) ++
       (nums.take 8).map (fun n => n * two32) ++ (nums.take 6).map (fun n => n * two32 + n) ++ (consts.take 6) ++ (consts.take 6).map (· * two32))
-  let cands := cands.take (if prog.length > 300 then 14 else if prog.length > 100 then 24 else 48)
+  let cands := cands.take (if plen > 300 then 14 else if plen > 100 then 24 else 48)
   -- base vectors: zeros, ones, and one per condition list that tries to satisfy it
   let lists := p.groups.foldl (fun acc g => g.withConds.foldl (fun acc nc => nc.conds :: acc) acc) []
   let bases := [List.replicate 6 0, List.replicate 6 (two64 - 1)] ++
-    (lists.take (if prog.length > 300 then 5 else 12)).map (fun l => l.foldl (fun b c => setArg b c.arg (satisfying c)) (List.replicate 6 0))
+    (lists.take (if plen > 300 then 5 else 12)).map (fun l => l.foldl (fun b c => setArg b c.arg (satisfying c)) (List.replicate 6 0))
+  (arches, nrs, bases, cands)
+
+/-- argument vectors tried for one architecture word -/
+def vectors (A : ArchInfo) (arch : Nat) (bases : List (List Nat)) (cands : List Nat) : List (List Nat) :=
+  -- foreign architectures: a handful of argument vectors is enough
+  if arch ≠ A.id.toNat then bases.take 3 else
+    bases ++ (bases.foldl (fun acc b =>
+      (List.range 6).foldl (fun acc i => cands.foldl (fun acc c => setArg b i c :: acc) acc) acc) [])
+
+/-- first event of the partition on which `prog` and the specification disagree -/
+def check (A : ArchInfo) (e : Endian) (p : Policy) (prog : List Instr) : String := Id.run do
+  let (arches, nrs, bases, cands) := partition A p (progConsts prog) prog.length
   let mut n := 0
   for arch in arches do
     for nr in nrs do
-      -- foreign architectures: a handful of argument vectors is enough
-      let vecs := if arch ≠ A.id.toNat then bases.take 3 else
-        bases ++ (bases.foldl (fun acc b =>
-          (List.range 6).foldl (fun acc i => cands.foldl (fun acc c => setArg b i c :: acc) acc) acc) [])
-      for args in vecs do
+      for args in vectors A arch bases cands do
         let ev := mkEvent nr arch args
         let want := Spec.decision A p ev
         let got := run (words e ev) prog 0#32
@@ -97,6 +106,22 @@ def check (A : ArchInfo) (e : Endian) (p : Policy) (prog : List Instr) : String 
         if got ≠ .ret want then
           return s!"CEX {renderEvent nr arch args} expected ret:{want.toNat} got {resultStr got}"
   return s!"AGREE {n}"
+
+/-- The same partition with the specification's decision for each event, for a program the
+    model's four instruction kinds cannot express (the harness then evaluates that program with
+    a reference interpreter of classic BPF).  At most `limit` events. -/
+def expectations (A : ArchInfo) (p : Policy) (consts : List Nat) (plen limit : Nat) : String := Id.run do
+  let (arches, nrs, bases, cands) := partition A p consts plen
+  let mut n := 0
+  let mut out := ""
+  for arch in arches do
+    for nr in nrs do
+      for args in vectors A arch bases cands do
+        if n < limit then
+          let want := Spec.decision A p (mkEvent nr arch args)
+          out := out ++ s!" {renderEvent nr arch args} {want.toNat}"
+          n := n + 1
+  return s!"EV {n}{out}"
 
 end Oracle
 
